@@ -1,11 +1,14 @@
 #!/bin/bash
-# developer helper: run the full quick check of the owning property against every stored seeded change (applies to /repo, reverts)
+# developer helper: run the quick check of the owning property against stored seeded changes (applies to /repo, reverts).
+# arguments: <id>[:unit1,unit2]...   (with units: only those units; without: the full property check)
 cd /verif
-for d in ${@:-seeded/*}; do
-  id=$(basename $d); prop=${id%%-*}
+for spec in "$@"; do
+  id=${spec%%:*}; units=""; [[ "$spec" == *:* ]] && units=${spec#*:}
+  d=seeded/$id; prop=${id%%-*}
   if ! git -C /repo apply --check $(readlink -f $d)/patch.diff 2>/dev/null; then echo "$id PATCH-DOES-NOT-APPLY"; continue; fi
   git -C /repo apply $(readlink -f $d)/patch.diff
-  s=$(date +%s); VERIF_OUT=/tmp/seeded_run_out python3 tools/check.py $prop --tier quick > /tmp/seeded_$id.out 2>&1; rc=$?; e=$(date +%s)
+  args=""; for u in ${units//,/ }; do args="$args --unit $u"; done
+  s=$(date +%s); VERIF_OUT=/tmp/seeded_run_out python3 tools/check.py $prop --tier quick $args > /tmp/seeded_$id.out 2>&1; rc=$?; e=$(date +%s)
   git -C /repo checkout -- .
-  echo "$id rc=$rc $((e-s))s $(grep '^VIOLATION' /tmp/seeded_$id.out | sed 's/.*replays.//' | cut -c1-60 | tr '\n' ' ') $(grep -c '^UNDECIDED' /tmp/seeded_$id.out) undecided"
+  echo "$id units=[${units:-ALL}] rc=$rc $((e-s))s $(grep '^VIOLATION' /tmp/seeded_$id.out | sed 's/.*replays.//' | cut -c1-70 | tr '\n' ' ') undecided=$(grep -c '^UNDECIDED' /tmp/seeded_$id.out)"
 done
